@@ -381,3 +381,53 @@ func (v *Value) KeyIndex(k *Value) int {
 	}
 	return -1
 }
+
+// DiffFieldsByID is Diff with struct fields matched by id instead of by wire position
+// (containers stay order-sensitive). Values with repeated field ids are not supported.
+func DiffFieldsByID(a, b *Value) string { return diffByID(a, b, "$") }
+
+func diffByID(a, b *Value, path string) string {
+	if a == nil || b == nil || a.K != b.K {
+		return diff(a, b, path)
+	}
+	switch a.K {
+	case STRUCT:
+		if len(a.Fields) != len(b.Fields) {
+			return fmt.Sprintf("%s: fields %v vs %v", path, a.fieldIDs(), b.fieldIDs())
+		}
+		for _, f := range a.Fields {
+			o := b.Field(f.ID)
+			if o == nil {
+				return fmt.Sprintf("%s: field %d missing in the second value; fields %v vs %v", path, f.ID, a.fieldIDs(), b.fieldIDs())
+			}
+			if d := diffByID(f.V, o, fmt.Sprintf("%s.%d", path, f.ID)); d != "" {
+				return d
+			}
+		}
+		return ""
+	case LIST, SET:
+		if len(a.Elems) != len(b.Elems) || a.ET != b.ET {
+			return diff(a, b, path)
+		}
+		for i := range a.Elems {
+			if d := diffByID(a.Elems[i], b.Elems[i], fmt.Sprintf("%s[%d]", path, i)); d != "" {
+				return d
+			}
+		}
+		return ""
+	case MAP:
+		if len(a.Elems) != len(b.Elems) || a.ET != b.ET || a.KT != b.KT {
+			return diff(a, b, path)
+		}
+		for i := range a.Elems {
+			if d := diffByID(a.Keys[i], b.Keys[i], fmt.Sprintf("%s{key %d}", path, i)); d != "" {
+				return d
+			}
+			if d := diffByID(a.Elems[i], b.Elems[i], fmt.Sprintf("%s{%d}", path, i)); d != "" {
+				return d
+			}
+		}
+		return ""
+	}
+	return diff(a, b, path)
+}
